@@ -53,6 +53,20 @@ def gen_scenarios(tier, seed):
                     "spurious": rnd.choice([0, 0, 1, 2]),
                     "schedule": {"source": "random", "seed": rnd.randrange(1 << 30),
                                  "switch": rnd.choice([50, 200, 400, 700, 1000])}})
+    # spec -> impl: the round sequences of Extend.tla's instance (n <= 2 auxiliary threads, every
+    # panicking subset, buffer cleared or appended to) through the real par_extend with one
+    # shared buffer: all 28 x 28 two-round sequences in the thorough tier, a sample otherwise
+    import itertools
+    rounds = [(n, list(ps), ap) for n in range(3) for k in range(n + 2)
+              for ps in itertools.combinations(range(n + 1), k) for ap in (False, True)]
+    seqs = list(itertools.product(rounds, repeat=2))
+    if tier == "quick":
+        seqs = rnd.sample(seqs, 150)
+    for j, sq in enumerate(seqs):
+        scs.append({"kind": "pool", "id": f"x{j}", "use": "par_extend", "reuse_vec": True,
+                    "history": [{"n": n, "panics": ps, "append": ap} for (n, ps, ap) in sq],
+                    "spurious": 0,
+                    "schedule": {"source": "random", "seed": rnd.randrange(1 << 30), "switch": rnd.choice([50, 300, 1000])}})
     # Bounded-exhaustive schedule enumeration on the implementation.
     dfs = [([(1, [])], 3, 1), ([(1, [1])], 2, 0), ([(2, [])], 2, 0),
            ([(1, []), (1, [])], 2, 1)]
